@@ -97,6 +97,9 @@ func genProto(t *rapid.T, v6 bool, allowBad bool) Proto {
 	}
 	if p.ListenMode == "interface" || p.ListenMode == "both" {
 		p.Iface = rapid.SampledFrom([]string{"eth0", "lo", "enp3s0", "wlan0"}).Draw(t, "iface")
+		if allowBad && rapid.IntRange(0, 3).Draw(t, "iface-odd") == 0 {
+			p.IfaceRaw = rapid.SampledFrom([]string{"''", "\"\"", "[eth0]", "[eth0, eth1]", "{name: eth0}", "' '"}).Draw(t, "iface-raw")
+		}
 	}
 	if !allowBad {
 		// keep only well-formed items of the right family
